@@ -19,6 +19,7 @@ SEED_BIN = TARGET / "debug" / "seed"
 LEAN_DIR = VERIF / "lean"
 MODEL_BIN = LEAN_DIR / ".lake" / "build" / "bin" / "seedmodel"
 NPROC = min(16, os.cpu_count() or 4)
+CASE_LIMIT_MS = 2500      # per-script limit of the implementation's batch runner (a script of these streams runs in < 50 ms)
 
 
 def _limits():
@@ -180,6 +181,10 @@ def _run_cases(cmd_fn, sources, timeout):
         res += got
         if len(got) == len(part):
             break
+        if got and got[-1]["status"] == "timeout" and rc == 0:
+            # the hook's own watchdog reported the case and ended the process: resume with the next case
+            start += len(got)
+            continue
         # the case after the last complete one hung (rc == "timeout") or took the process down
         res.append({"stdout": "", "status": "timeout" if rc == "timeout" else f"died:{rc}", "stderr": ""})
         start += len(got) + 1
@@ -190,7 +195,7 @@ def run_batch(side, sources, path="t.sd", fuel=2000000, timeout=120):
     if not sources:
         return []
     if side == "impl":
-        cmd_fn = lambda nonce: [str(SEED_BIN), "--verif-run", nonce, path]
+        cmd_fn = lambda nonce: [str(SEED_BIN), "--verif-run", nonce, path, str(CASE_LIMIT_MS)]
     else:
         cmd_fn = lambda nonce: [str(MODEL_BIN), "run", nonce, path, str(fuel)]
     parts = _chunks(list(sources), NPROC)
